@@ -167,6 +167,8 @@ func (r *DeviceLocal) RemoveRemoteDevice(ski string) {
 	bindingMgr := r.BindingManager()
 	bindingMgr.RemoveBindingsForDevice(remoteDevice)
 
+	verifPoint("RemoveRemoteDevice.beforeCleanup", r)
+
 	r.mux.Lock()
 	delete(r.remoteDevices, ski)
 	remainingDevices := len(r.remoteDevices)
